@@ -479,7 +479,10 @@ class Harness:
         num, value, prev, change = kw["player_num"], kw["value"], kw["prev_value"], kw["change"]
         ctx.log("var", var, num, repr(value), repr(prev), repr(change), t=self.sim.now)
         g = self.m.game
-        if g is None or not isinstance(num, int) or not 1 <= num <= len(g.player_list):
+        if g is None:
+            self.bad("isolation", "player variable changed while no game is running: %s" % var,
+                     "player_%s %r posted after the game ended" % (var, kw))
+        if not isinstance(num, int) or not 1 <= num <= len(g.player_list):
             self.bad("var_event", "player_num out of range", "player_%s posted with player_num=%r" % (var, num))
         actual = g.player_list[num - 1].vars.get(var, _MISSING)
         if actual is _MISSING or M.canon_value(actual) != M.canon_value(value):
